@@ -1,6 +1,216 @@
 /- Helper lemmas for C03. -/
 import SigV4.Spec.ValidateSpec
+import SigV4.Lemmas.C04
 
 namespace SigV4
+
+/-! ### `splitOn`, `splitFirst`, `joinWith` -/
+
+theorem splitOn_ne_nil (sep : UInt8) (s : Bytes) : splitOn sep s ≠ [] := by
+  induction s with
+  | nil => simp [splitOn]
+  | cons c cs ih =>
+    unfold splitOn
+    split
+    · simp
+    · split <;> simp
+
+theorem splitOn_cons_sep (sep : UInt8) (cs : Bytes) :
+    splitOn sep (sep :: cs) = [] :: splitOn sep cs := by
+  rw [splitOn]; simp
+
+theorem splitOn_cons_ne {sep c : UInt8} (h : c ≠ sep) (cs p : Bytes) (ps : List Bytes)
+    (hs : splitOn sep cs = p :: ps) : splitOn sep (c :: cs) = (c :: p) :: ps := by
+  rw [splitOn, if_neg h, hs]
+
+theorem joinWith_cons_cons (sep x y : Bytes) (rest : List Bytes) :
+    joinWith sep (x :: y :: rest) = x ++ sep ++ joinWith sep (y :: rest) := by
+  rw [joinWith]
+
+theorem joinWith_singleton (sep x : Bytes) : joinWith sep [x] = x := by
+  rw [joinWith]
+
+/-- Joining the pieces with the separator gives the string back. -/
+theorem joinWith_splitOn (sep : UInt8) (s : Bytes) : joinWith [sep] (splitOn sep s) = s := by
+  induction s with
+  | nil => simp [splitOn, joinWith]
+  | cons c cs ih =>
+    obtain ⟨p, ps, hps⟩ : ∃ p ps, splitOn sep cs = p :: ps := by
+      cases h : splitOn sep cs with
+      | nil => exact absurd h (splitOn_ne_nil sep cs)
+      | cons p ps => exact ⟨p, ps, rfl⟩
+    by_cases hc : c = sep
+    · subst hc
+      rw [splitOn_cons_sep, hps, joinWith_cons_cons, ← hps, ih]
+      rfl
+    · rw [splitOn_cons_ne hc cs p ps hps]
+      rw [hps] at ih
+      cases ps with
+      | nil =>
+        rw [joinWith_singleton] at ih ⊢
+        rw [ih]
+      | cons q qs =>
+        rw [joinWith_cons_cons] at ih ⊢
+        rw [← ih]
+        simp
+
+/-- `splitFirst` when there is more than one piece. -/
+theorem splitFirst_of_splitOn_cons_cons (sep : UInt8) (s x y : Bytes) (rest : List Bytes)
+    (h : splitOn sep s = x :: y :: rest) :
+    splitFirst sep s = (x, some (joinWith [sep] (y :: rest))) := by
+  induction s generalizing x with
+  | nil => simp [splitOn] at h
+  | cons c cs ih =>
+    by_cases hc : c = sep
+    · subst hc
+      rw [splitOn_cons_sep] at h
+      injection h with hx hrest
+      subst hx
+      rw [← hrest, joinWith_splitOn]
+      rw [splitFirst]; simp
+    · obtain ⟨p, ps, hps⟩ : ∃ p ps, splitOn sep cs = p :: ps := by
+        cases h' : splitOn sep cs with
+        | nil => exact absurd h' (splitOn_ne_nil sep cs)
+        | cons p ps => exact ⟨p, ps, rfl⟩
+      rw [splitOn_cons_ne hc cs p ps hps] at h
+      injection h with hx hrest
+      subst hx; subst hrest
+      rw [splitFirst, if_neg hc, ih p hps]
+
+/-- The first component of `splitFirst` is the first piece. -/
+theorem splitFirst_fst_of_splitOn_cons (sep : UInt8) (s x : Bytes) (rest : List Bytes)
+    (h : splitOn sep s = x :: rest) : (splitFirst sep s).1 = x := by
+  induction s generalizing x rest with
+  | nil =>
+    simp [splitOn] at h
+    simp [splitFirst, h.1]
+  | cons c cs ih =>
+    by_cases hc : c = sep
+    · subst hc
+      rw [splitOn_cons_sep] at h
+      injection h with hx hrest
+      subst hx
+      rw [splitFirst]; simp
+    · obtain ⟨p, ps, hps⟩ : ∃ p ps, splitOn sep cs = p :: ps := by
+        cases h' : splitOn sep cs with
+        | nil => exact absurd h' (splitOn_ne_nil sep cs)
+        | cons p ps => exact ⟨p, ps, rfl⟩
+      rw [splitOn_cons_ne hc cs p ps hps] at h
+      injection h with hx hrest
+      subst hx
+      rw [splitFirst, if_neg hc]
+      simp [ih p ps hps]
+
+/-! ### The scope rule -/
+
+theorem scopeCheck_five (a : Authenticator) (region service ak d r sv t : Bytes)
+    (h : splitOn 0x2F a.credential = [ak, d, r, sv, t]) :
+    scopeCheck a region service =
+      if r = region ∧ sv = service ∧ t = b!"aws4_request" ∧ d = fmtDate (utcDate a.timestamp)
+      then .ok () else .err .SignatureDoesNotMatch := by
+  unfold scopeCheck
+  rw [h]
+  rfl
+
+theorem scopeCheck_not_five (a : Authenticator) (region service : Bytes)
+    (h : (splitOn 0x2F a.credential).length ≠ 5) :
+    scopeCheck a region service = .err .IncompleteSignature := by
+  unfold scopeCheck
+  split
+  · next heq => rw [heq] at h; simp at h
+  · rfl
+
+theorem length_eq_five {α : Type} (l : List α) (h : l.length = 5) :
+    ∃ a b c d e, l = [a, b, c, d, e] := by
+  match l, h with
+  | [a, b, c, d, e], _ => exact ⟨a, b, c, d, e, rfl⟩
+
+theorem scopeCheck_ok_iff' (a : Authenticator) (region service : Bytes) :
+    scopeCheck a region service = .ok () ↔
+      ∃ ak, splitOn 0x2F a.credential =
+        [ak, fmtDate (utcDate a.timestamp), region, service, b!"aws4_request"] := by
+  constructor
+  · intro h
+    by_cases h5 : (splitOn 0x2F a.credential).length = 5
+    · obtain ⟨ak, d, r, sv, t, hs⟩ := length_eq_five _ h5
+      rw [scopeCheck_five a region service ak d r sv t hs] at h
+      split at h
+      · next hc =>
+        obtain ⟨h1, h2, h3, h4⟩ := hc
+        subst h1; subst h2; subst h3; subst h4
+        exact ⟨ak, hs⟩
+      · cases h
+    · rw [scopeCheck_not_five a region service h5] at h
+      cases h
+  · rintro ⟨ak, hs⟩
+    rw [scopeCheck_five a region service ak _ _ _ _ hs]
+    simp
+
+/-- The three possible verdicts of the scope rule. -/
+theorem scopeCheck_cases (a : Authenticator) (region service : Bytes) :
+    scopeCheck a region service = .ok () ∨
+    scopeCheck a region service = .err .SignatureDoesNotMatch ∨
+    scopeCheck a region service = .err .IncompleteSignature := by
+  unfold scopeCheck
+  split
+  · split <;> simp
+  · simp
+
+/-- `prevalidate` is either a freshness refusal or the scope rule's verdict (any `now`). -/
+theorem prevalidate_cases (a : Authenticator) (region service : Bytes) (now : Int) :
+    prevalidate a region service now = .err .SignatureDoesNotMatch ∨
+    prevalidate a region service now = scopeCheck a region service := by
+  unfold prevalidate
+  split
+  · exact Or.inl rfl
+  · split
+    · exact Or.inl rfl
+    · exact Or.inr rfl
+
+theorem scopeCheck_ok_of_prevalidate_ok (a : Authenticator) (region service : Bytes) (now : Int)
+    (h : prevalidate a region service now = .ok ()) : scopeCheck a region service = .ok () := by
+  rcases prevalidate_cases a region service now with h' | h'
+  · rw [h'] at h; cases h
+  · rw [← h']; exact h
+
+/-! ### The string to sign -/
+
+theorem stringToSign_of_five (a : Authenticator) (ak d r sv t : Bytes)
+    (h : splitOn 0x2F a.credential = [ak, d, r, sv, t]) :
+    stringToSign a = .ok (AWS4_HMAC_SHA256 ++ [0x0A] ++ compactUtc a.timestamp ++ [0x0A]
+      ++ (d ++ [0x2F] ++ r ++ [0x2F] ++ sv ++ [0x2F] ++ t) ++ [0x0A] ++ hexLower a.creqSha) := by
+  unfold stringToSign
+  rw [splitFirst_of_splitOn_cons_cons 0x2F a.credential ak d [r, sv, t] h]
+  simp [joinWith]
+
+/-! ### Provider calls of `validateSignature` -/
+
+theorem getSigningKey_calls {σ : Type} (P : Provider σ) (s : σ) (a : Authenticator)
+    (region service : Bytes) (c : ProviderReq)
+    (hc : c ∈ (getSigningKey P s a region service).calls) : c = providerReqOf a region service := by
+  unfold getSigningKey at hc
+  simp only [] at hc
+  split at hc
+  · simp at hc
+  · split at hc <;> simpa [providerReqOf] using hc
+
+theorem validateSignature_calls {σ : Type} (H : Bytes → Bytes) (P : Provider σ) (s : σ)
+    (a : Authenticator) (region service : Bytes) (now : Int) (c : ProviderReq)
+    (hc : c ∈ (validateSignature H P s a region service now).calls) :
+    c = providerReqOf a region service := by
+  unfold validateSignature at hc
+  split at hc
+  · simp at hc
+  · simp at hc
+  · split at hc
+    · simp at hc
+    · simp at hc
+    · apply getSigningKey_calls P s a region service c
+      revert hc
+      simp only []
+      split
+      · exact id
+      · exact id
+      · split <;> exact id
 
 end SigV4
